@@ -231,9 +231,12 @@ def main(spec, argv=None):
     failing.sort(key=lambda x: x[0])
     reported = set()
     for i, case, v in failing:
-        if v['cls'] in reported:
+        # a listed known finding never hides an unlisted violation of the
+        # same class: the two are de-duplicated separately
+        key = (v['cls'], report.match_known(prop, v, case) is not None)
+        if key in reported:
             continue
-        reported.add(v['cls'])
+        reported.add(key)
         small = minimise(spec, case, v['cls'])
         v2 = e3.execute(small, props=spec.props).get('violation') or v
         path = report.write_replay(prop, seed, i, dict(
